@@ -138,6 +138,7 @@ func cmdVerify(args []string) {
 	ctx, err := Load(*repo, fs.Args())
 	if err != nil {
 		fmt.Fprintln(os.Stderr, "load:", err)
+		os.RemoveAll(workDir)
 		os.Exit(2)
 	}
 	fmt.Printf("loaded in %.1fs, %d contract files, %d contracts\n", time.Since(t0).Seconds(), len(ctx.files), len(ctx.all))
